@@ -755,7 +755,7 @@ class Process(StateMachine, persistence.Savable, metaclass=ProcessStateMachineMe
         elif state_label == process_states.ProcessState.KILLED:
             call_with_super_check(self.on_killed)
 
-        if self._communicator:
+        if self._communicator is not None:
             # (the label of a state is an enum member or, for a state class plugged in by an application, a plain string)
             def label_text(label: Any) -> Any:
                 return label.value if isinstance(label, enum.Enum) else label
